@@ -152,6 +152,48 @@ pub fn judge(p: &Program, named: Option<&Program>) -> Result<(), (String, String
         Ok(Err(e)) => return Err(("felt-serialise-fails".into(), format!("{e:?}"))),
         Err(pr) => return Err((format!("felt-serialise-panics@{}", pr.loc), pr.msg)),
     }
+    // (2b) Debug names put back from the class's debug info (DebugInfo::extract at construction,
+    // DebugInfo::populate at extraction): the populated program, printed and parsed, is still the
+    // same program up to a consistent renaming, and compiles to the same CASM (checked in (4)).
+    let mut populated: Option<Program> = None;
+    let has_names = |q: &Program| q.funcs.iter().any(|f| f.id.debug_name.is_some()) || q.type_declarations.iter().any(|d| d.id.debug_name.is_some());
+    if let Some(q) = [named, Some(p)].into_iter().flatten().find(|q| has_names(q)) {
+        // As in contract compilation: canonical ids (the felt form needs declarations in id order),
+        // debug names kept.
+        let cq = canon(q);
+        let class = panics::catch(|| ContractClass::new(&cq, ContractEntryPoints::default(), None, Default::default()));
+        if std::env::var("VERIF_DEBUG_C18").is_ok() {
+            eprintln!("c18 2b: class ok={} user_func={} err={:?}", matches!(class, Ok(Ok(_))), kinds(q).user_func, class.as_ref().map(|r| r.as_ref().err().map(|e| format!("{e:?}"))).ok());
+        }
+        if let Ok(Ok(class)) = class {
+            match panics::catch(|| class.extract_sierra_program(true)) {
+                Ok(Ok(x)) => {
+                    let text = x.program.to_string();
+                    match panics::catch(|| ProgramParser::new().parse(&text)) {
+                        Ok(Ok(px)) => {
+                            let Ok(px_key) = panics::catch(|| iso_key(&px)) else {
+                                return Err((
+                                    "debug-info-populate-dangling-id".into(),
+                                    "the program with debug names restored by DebugInfo::populate, printed and parsed, refers to an id that is not declared in it (some occurrence kept its number while its declaration got the name)".into(),
+                                ));
+                            };
+                            if px_key != iso_key(q) {
+                                return Err((
+                                    "debug-info-populate-not-isomorphic".into(),
+                                    format!("the program with debug names restored by DebugInfo::populate, printed and parsed, is not the original up to a consistent renaming of ids: {}", describe_program_diff(&iso_key(q), &px_key)),
+                                ));
+                            }
+                            populated = Some(px);
+                        }
+                        Ok(Err(e)) => return Err(("debug-info-populate-text-parse-fails".into(), format!("the printed populated program is rejected by ProgramParser: {}", truncate(&format!("{e:?}"), 200)))),
+                        Err(pr) => return Err((format!("text-parse-panics@{}", pr.loc), pr.msg)),
+                    }
+                }
+                Ok(Err(e)) => return Err(("felt-deserialise-fails:with-debug-info".into(), format!("{e:?}"))),
+                Err(pr) => return Err((format!("debug-info-populate-panics@{}", pr.loc), pr.msg)),
+            }
+        }
+    }
     // (3) versioned JSON.
     for q in [Some(p), named].into_iter().flatten() {
         let v = VersionedProgram::v1(ProgramArtifact::stripped(q.clone()));
@@ -180,6 +222,9 @@ pub fn judge(p: &Program, named: Option<&Program>) -> Result<(), (String, String
         }
         if let Some(x) = felt_rt {
             variants.push(("felt round trip", x));
+        }
+        if let Some(x) = populated {
+            variants.push(("debug names restored from debug info, printed and parsed", x));
         }
         for (label, q) in variants {
             match casm_text(&q) {
@@ -231,18 +276,26 @@ fn compile_both(db: &cairo_lang_compiler::db::RootDatabase, name: &str, src: &st
     Some((p.program.clone(), replace_sierra_ids_in_program(db, &p.program)))
 }
 
+pub fn debug_file(src: &str, settings: &str) -> Result<(), (String, String)> {
+    let db = FrontCfg::default_cfg().new_db(Plugins::Default);
+    let Some((a, b)) = compile_both(&db, "test", src, settings) else { return Err(("does-not-compile".into(), String::new())) };
+    println!("{b}");
+    judge(&a, Some(&b))
+}
+
 impl Prop for C18 {
     fn id(&self) -> &'static str {
         "C18"
     }
     fn rule(&self) -> String {
+        // (2b) was added after seeded change C18-r3.
         "Programs: (a) every corpus `.sierra` file and e2e `sierra_code` section that parses, (b) Sierra compiled by \
          the compiler itself from generated programs (numeric matches, consts, generic corelib code, closures, \
          specialised functions), e2e snippets and example files - each both with raw ids and with debug names. \
          Oracles per program: display -> ProgramParser -> display is a fixpoint and isomorphic (canonical ids equal); \
-         ContractClass::new(canon(s)).extract_sierra_program() == canon(s); VersionedProgram JSON round trip equal \
-         (value, text, printed form); CASM text equal across raw ids, debug names, canonical ids, parsed and \
-         felt-round-tripped versions. Non-trivial = program with a generic argument kind beyond plain types (value, \
+         ContractClass::new(canon(s)).extract_sierra_program() == canon(s); the named program extracted with its debug info populated (DebugInfo::extract / populate), printed and parsed, is isomorphic to the original; VersionedProgram JSON round trip equal \
+         (value, text, printed form); CASM text equal across raw ids, debug names, canonical ids, parsed, \
+         felt-round-tripped and debug-info-populated versions. Every e2e snippet and example is swept under the default configuration in every run; the sampled part adds the corpus Sierra, generated programs and drawn configurations. Non-trivial = program with a generic argument kind beyond plain types (value, \
          negative value, user type, user function, libfunc); distinct = hash of the printed program."
             .into()
     }
@@ -254,6 +307,41 @@ impl Prop for C18 {
         let snippets = execs::load_snippets();
         let cases = ctx.tier.pick(30, 300);
         ctx.shrink_iters = 100;
+        // Full sweep: every e2e snippet / example, compiled under the default configuration, goes
+        // through all round trips in every run (constructs that occur in a handful of snippets
+        // only - coupons, circuits, closures - are then never left to the luck of sampling).
+        if ctx.only.is_none() {
+            let n_shards = ctx.n_shards;
+            let sdb = FrontCfg::default_cfg().new_db(Plugins::Default);
+            ctx.enumerate_shards(|ctx, shard| {
+                for (i, s) in snippets.iter().enumerate() {
+                    if i as u64 % n_shards != shard {
+                        continue;
+                    }
+                    let Ok(Some((a, b))) = panics::catch(|| compile_both(&sdb, "test", &s.code, s.settings)) else {
+                        ctx.stats.count("sweep_snippet_not_compilable_standalone");
+                        continue;
+                    };
+                    ctx.stats.eval();
+                    ctx.stats.count("sweep_snippets");
+                    let k = kinds(&a);
+                    if k.user_func {
+                        ctx.stats.count("sweep_with_user_funcs");
+                    }
+                    if k.value || k.user_type || k.user_func || k.libfunc {
+                        ctx.stats.nontrivial(hash_str(&b.to_string()));
+                    }
+                    if let Err((sig, what)) = judge(&a, Some(&b)) {
+                        let f = crate::core::driver::Failure {
+                            sig,
+                            what,
+                            artefact: json!({"origin": s.origin, "versioned_program": serde_json::to_value(VersionedProgram::v1(ProgramArtifact::stripped(b.clone()))).unwrap_or(Value::Null), "named": true}),
+                        };
+                        ctx.report(&f, shard);
+                    }
+                }
+            });
+        }
         let mut db = FrontCfg::default_cfg().new_db(Plugins::Default);
         let mut n = 0u64;
         ctx.run_shards(1300, cases, |cc: &mut CaseCtx<'_>, ch: &mut Choices| {
